@@ -29,7 +29,7 @@ type c09Case struct {
 }
 
 // shape catalogue: body of type number self with targets b, c
-const c09Shapes = 16
+const c09Shapes = 18
 const c09RootKinds = 6
 
 func c09Shape(k int, self int, b, c string) (*model.Node, int) {
@@ -66,9 +66,15 @@ func c09Shape(k int, self int, b, c string) (*model.Node, int) {
 	case 14:
 		// key shortcut whose VALUE references a type (@k is always part of the environment)
 		return model.Obj(model.PShort("@k", model.Ref(b))), 1
-	default:
+	case 15:
 		// EMPTY object whose additionalProperties names a type
 		return model.Obj().With(model.RStr("additionalProperties", b)), 1
+	case 16:
+		// inheriting object WITHOUT a required key of its own (a middle link of an allOf chain)
+		return model.Obj(model.P(q, model.Int("1").With(model.RBool("optional", true)))).With(model.RAllOf(b)), 1
+	default:
+		// inheriting object with a required reference of its own
+		return model.Obj(model.P(q, model.Ref(c))).With(model.RAllOf(b)), 2
 	}
 }
 
@@ -308,13 +314,16 @@ func c09TwoTypeWitness(c *mon.Ctx) {
 // c09Judge runs one graph in both registration configurations: types added to the root only,
 // and every type added to every other type as well.
 func c09Judge(c *mon.Ctx, s *model.Schema, class string, sample bool) {
-	c09JudgeCfg(c, s, class, sample, false)
-	c09JudgeCfg(c, s, class+" (types added to every type)", false, true)
+	c09JudgeCfg(c, s, class, sample, false, false)
+	c09JudgeCfg(c, s, class+" (types added to every type)", false, true, false)
+	// the same type objects were first given (every second one) to another root which was checked
+	c09JudgeCfg(c, s, class+" (another root over the same type objects checked first)", false, false, true)
 }
 
-func c09JudgeCfg(c *mon.Ctx, s *model.Schema, class string, sample bool, fullReg bool) {
+func c09JudgeCfg(c *mon.Ctx, s *model.Schema, class string, sample bool, fullReg, preRoot bool) {
 	sp := specOf(s, model.Style{})
 	sp.FullReg = fullReg
+	sp.PreRoot = preRoot
 	want, why := model.RecursionVerdict(s)
 	if fullReg && why == model.KnownTwoTypeRecursion {
 		why = "root has no finite inhabitant along required references (every type sees every type)"
